@@ -1406,6 +1406,16 @@ valid_op(Op) :-
 op_(Priority, OpSpec, Op) :-
     '$op'(Priority, OpSpec, Op).
 
+% the restrictions on '|' also apply when it is an element of a list of names.
+op_bar_check(Priority, OpSpec, Op) :-
+    (  Op == '|',
+       \+ (  lists:member(OpSpec, [xfx, xfy, yfx]),
+             ( Priority >= 1001 ; Priority == 0 )
+          ) ->
+       throw(error(permission_error(create, operator, (|)), op/3))
+    ;  true
+    ).
+
 
 %% op(Priority, Spec, Op)
 %
@@ -1430,6 +1440,7 @@ op(Priority, OpSpec, Op) :-
     ;  valid_op(Op), op_priority(Priority), op_specifier(OpSpec) ->
        '$op'(Priority, OpSpec, Op)
     ;  list_of_op_atoms(Op), op_priority(Priority), op_specifier(OpSpec) ->
+       lists:maplist(builtins:op_bar_check(Priority, OpSpec), Op),
        lists:maplist(builtins:op_(Priority, OpSpec), Op),
        !
     ;  throw(error(type_error(list, Op), op/3)) % 8.14.3.3 f)
